@@ -2,8 +2,7 @@
 """Regenerates MANIFEST.json from lib/props.py and lib/manifest_meta.py (kept valid at all times)."""
 import json, os, sys
 sys.path.insert(0, os.path.dirname(os.path.abspath(__file__)))
-from props import PROPS
-from manifest_meta import META, NOT_APPLICABLE, HOOK_COMMITS
+from props import PROPS, META, NOT_CLAIMED as NOT_APPLICABLE, HOOK_COMMITS
 
 checks = []
 for pid in sorted(PROPS):
